@@ -19,7 +19,7 @@ for p in /verif/mutants/$pat.patch; do
   if ! go build ./... 2>$wt.err; then echo "SKIP $name (does not build)"; git checkout -- .; continue; fi
   res=""
   for pr in $prop; do
-    out=$(/verif/bin/govc check $pr --repo $wt --timeout ${MUT_TIMEOUT:-8} --noevidence 2>&1); rc=$?
+    out=$(${GOVC:-/verif/bin/govc} check $pr --repo $wt --timeout ${MUT_TIMEOUT:-8} --noevidence 2>&1); rc=$?
     if [ $rc -eq 1 ] && echo "$out" | grep -q "^VIOLATION property=$pr"; then nf=$(echo "$out" | grep "^VIOLATION" | grep -vc "no-failing-input-found"); res="$res $pr:caught(replayed=$nf)"; else res="$res $pr:MISSED(rc=$rc)"; fi
   done
   git checkout -- .
@@ -35,7 +35,7 @@ if [ -z "$1" ] || [ "$1" = "equivalent" ]; then
     ok=1; why=""
     go build ./... 2>/dev/null || { echo "SKIP equivalent/$name (does not build)"; git checkout -- .; continue; }
     for pr in $prop; do
-      o=$(/verif/bin/govc check $pr --repo $wt --noevidence 2>&1) || { ok=0; why="$why $(echo "$o" | grep -m2 '^FAILED-OBLIGATION' | cut -c1-160)"; }
+      o=$(${GOVC:-/verif/bin/govc} check $pr --repo $wt --noevidence 2>&1) || { ok=0; why="$why $(echo "$o" | grep -m2 '^FAILED-OBLIGATION' | cut -c1-160)"; }
     done
     git checkout -- .
     if [ $ok -eq 1 ]; then echo "OK   equivalent/$name (no alarm)"; else fail=$((fail+1)); echo "FALSE-ALARM equivalent/$name $why"; fi
